@@ -158,8 +158,13 @@ def validate_runs(prim, runs, invs, workdir, label, is_known=None):
     it = 0
     nvalidated = 0
     if multi:
-        def nd_one(ri):
-            wd = os.path.join(workdir, "%s-nd-%d" % (label, ri))
+        # a linearization has to satisfy the whole observer, not only this property's part of it; the run
+        # counts against this property iff no choice satisfies everything, but some choice satisfies
+        # everything except this property's invariants
+        all_invs = sorted({i for pr in PROPS.values() if prim in pr["prims"] for i in pr["invs"][prim]})
+        others = [i for i in all_invs if i not in invs]
+        def nd_try(ri, nd_invs, tag):
+            wd = os.path.join(workdir, "%s-nd%s-%d" % (label, tag, ri))
             os.makedirs(wd, exist_ok=True)
             tr = os.path.join(wd, "trace.ndjson")
             h, evs = runs[ri]
@@ -173,17 +178,28 @@ def validate_runs(prim, runs, invs, workdir, label, is_known=None):
                 for c in info["trace_cfg_consts"]:
                     if not c.startswith("NDInvs"):
                         f.write("  %s\n" % c)
-                f.write("  NDInvs = {%s}\n" % ", ".join('"%s"' % i for i in invs))
+                f.write("  NDInvs = {%s}\n" % ", ".join('"%s"' % i for i in nd_invs))
                 f.write("POSTCONDITION TraceAccepted\nCHECK_DEADLOCK FALSE\nALIAS TraceAlias\n")
             rc, out = tlc(info["obs_trace"], cfg, wd, workers=1, env_extra={"TRACE": tr}, trace_mode=True, timeout=900)
             txt = open(out, errors="replace").read()
             m = re.search(r'"TRACE-REJECTED at line",\s*(\d+)', txt)
             if m:
-                return ri, int(m.group(1)) - 1
+                return int(m.group(1)) - 1
             if "Error:" in txt or rc != 0:
                 tail = "\n".join(txt.splitlines()[-40:])
                 raise ToolError("trace validation (linearization mode) failed to run (%s):\n%s" % (out, tail))
-            return ri, None
+            return None
+        def nd_one(ri):
+            evn = nd_try(ri, all_invs, "")
+            if evn is None:
+                return ri, None
+            # every linearization breaks this property's own invariants
+            if nd_try(ri, invs, "p") is not None:
+                return ri, evn
+            # every linearization that keeps all the other invariants breaks this property's
+            if nd_try(ri, others, "x") is None:
+                return ri, evn
+            return ri, -1     # rejected, but not on account of this property's invariants
         import concurrent.futures as _cf
         for k in range(0, len(multi), 6):
             with _cf.ThreadPoolExecutor(max_workers=6) as ex:
@@ -191,6 +207,8 @@ def validate_runs(prim, runs, invs, workdir, label, is_known=None):
             for ri, evn in res:
                 if evn is None:
                     nvalidated += 1
+                elif evn < 0:
+                    pass
                 else:
                     violations.append({"inv": "+".join(invs) + " (under every choice of the critical section at which multi-section calls take effect)",
                                        "run": ri, "event": evn})
@@ -490,7 +508,8 @@ def run_check(prop_id, tier, seed):
     # ---- phase 3b: regression histories (counterexamples found earlier), executed on the real code
     for prim in prop["prims"]:
         for path in sorted(glob.glob(os.path.join(ROOT, "regress", prim, "*.ndjson"))):
-            for fl in PRIMS[prim]["flavours"]:
+            hdr0 = json.loads(open(path).readline())
+            for fl in hdr0.get("flavours", PRIMS[prim]["flavours"]):
                 out = os.path.join(work, "regress-%s-%s-%s" % (prim, fl, os.path.basename(path)))
                 fih(["exec", "--prim", prim, "--flavour", fl, "--ops", path, "--out", out])
                 add_trace_file(prim, out, "regress %s %s" % (os.path.basename(path), fl))
